@@ -69,8 +69,9 @@ struct Machine {
         case 5:
             t.MMIOWrite(0x202, (u16)s.arg(2)); // acknowledge
             break;
-        default:
-            t.MMIOWrite(0x2C6, (u16)s.arg(2)); // queue an audio word
+        default: // queue one to five audio words (odd counts leave a half frame behind, refills land on a partly drained queue)
+            for (s64 i = 0, n = 1 + s.arg(1) % 5; i < n; ++i)
+                t.MMIOWrite(0x2C6, (u16)(s.arg(2) + i));
             break;
         }
     }
